@@ -39,6 +39,7 @@ var swaps = map[string]map[string]string{
 	"pkg/sessions/persistence": {"sync": "vsync", "sync/atomic": "vatomic"},
 	"pkg/cookies":              {"sync": "vsync", "sync/atomic": "vatomic"},
 	"pkg/middleware":           {"time": "vtime", "context": "vcontext"},
+	"pkg/header":               {"sync": "vsync", "sync/atomic": "vatomic"},
 	"pkg/watcher":              {"github.com/fsnotify/fsnotify": "vfsnotify"},
 }
 
@@ -47,7 +48,14 @@ var swaps = map[string]map[string]string{
 var mainOnly = map[string]bool{"validator.go": true}
 
 // packages whose plain field/map accesses are instrumented for the race check (C20)
-var instrumented = map[string]bool{"pkg/authentication/basic": true, ".": true}
+var instrumented = map[string]bool{"pkg/authentication/basic": true, ".": true, "pkg/header": true, "pkg/middleware": true}
+
+// packages in which uses of package-level and closure-captured variables are recorded as well
+var instrumentVars = map[string]bool{"pkg/header": true, "pkg/middleware": true}
+
+// packages of which only some files are instrumented (C07's concurrent part needs scheduling
+// points inside the header injection code, not in the whole middleware package)
+var instrumentedFiles = map[string]map[string]bool{"pkg/middleware": {"headers.go": true}}
 
 // shim packages with generated complete re-exports: shim dir -> real import path
 var shims = map[string]string{
@@ -131,9 +139,12 @@ func main() {
 			if strings.HasSuffix(f, "_test.go") {
 				continue
 			}
-			var fields map[string]bool
-			if instrumented[d] {
+			var fields, pkgVars map[string]bool
+			if instrumented[d] && (instrumentedFiles[d] == nil || instrumentedFiles[d][filepath.Base(f)]) {
 				fields = packageFieldNames(abs)
+				if instrumentVars[d] {
+					pkgVars = packageVarNames(abs)
+				}
 			}
 			if d == "." && !mainOnly[filepath.Base(f)] {
 				// package main: besides validator.go only files that themselves use sync or
@@ -143,7 +154,7 @@ func main() {
 					continue
 				}
 			}
-			src, changed := rewriteFile(f, swaps[d], fields)
+			src, changed := rewriteFile(f, swaps[d], fields, pkgVars)
 			if !changed {
 				continue
 			}
@@ -194,7 +205,7 @@ func must(err error) {
 }
 
 // rewriteFile swaps imports and (optionally) instruments plain accesses.
-func rewriteFile(path string, swap map[string]string, fields map[string]bool) ([]byte, bool) {
+func rewriteFile(path string, swap map[string]string, fields, pkgVars map[string]bool) ([]byte, bool) {
 	fset := token.NewFileSet()
 	f, err := parser.ParseFile(fset, path, nil, parser.ParseComments)
 	must(err)
@@ -215,7 +226,7 @@ func rewriteFile(path string, swap map[string]string, fields map[string]bool) ([
 		changed = true
 	}
 	if fields != nil {
-		if instrumentAccesses(fset, f, fields) {
+		if instrumentAccesses(fset, f, fields, pkgVars) {
 			changed = true
 		}
 	}
